@@ -478,7 +478,15 @@ def run_threads(case):
         out.append(distinct)
     return out, errs, sum(len(v) for v in seen.values())
 
+def _quiet_unraisable(u, _old=sys.unraisablehook):
+    # a match that builds a cyclic term (unspecified, the case is skipped) recurses to the interpreter's limit; a weakref
+    # callback of the verification hook's WeakSet that fires at that depth cannot run and is reported on stderr: noise
+    if u.exc_type is RecursionError:
+        return
+    _old(u)
+
 def impl(case):
+    sys.unraisablehook = _quiet_unraisable
     case = dict(case)
     _prepare(case)
     alone = run_alone_fresh(case)
